@@ -89,7 +89,23 @@ def observe(fn):
 
 
 def signature(obs) -> str:
-    return f"{obs['out'][5:]}@{obs.get('origin', '?')}"
+    if obs.get("digits"):
+        return "digits|ValueError"  # str() of an int with more digits than sys.get_int_max_str_digits()
+    return f"{obs['out'][5:]}@{obs.get('origin', '?').replace('_async', '')}"
+
+
+def _degiant(cls):
+    return "int_huge" if cls == "int_giant" else cls
+
+
+def mark_digits(obs, had_giant, rerun):
+    """A ValueError in a cell with an int_giant operand is the int->str digit limit iff the same cell with the giant
+    operands replaced by int_huge (str() works) does not raise ValueError."""
+    if had_giant and obs["out"] == "leak:ValueError":
+        again = rerun()
+        if again["out"] != "leak:ValueError" or again.get("origin") != obs.get("origin"):
+            obs["digits"] = True
+    return obs
 
 
 _ENVS: dict = {}
@@ -216,7 +232,7 @@ def _build_prim_table():
         "dateparse": ([[c for c in STRS if c not in ("str_int", "str_ts", "str_bigdigits", "str_hugeint")]], parser.parse, False),
         "json_indent": ([[c for c in NUMERIC if c.startswith("int_") and c != "int_ts"]], lambda n: _json.dumps([1], indent=n), False),
         "sorted": ([[c for c in allc if c.startswith("list_") or c in ("range",)]], sorted, False),
-        "percent_format": ([[c for c in STRS if c not in ("str_hugeint",)]], lambda s: s % {"x": "X", "you": "Y", "n": "N"}, False),
+        "percent_format": ([[c for c in STRS if c not in ("str_hugeint",)]], lambda s: s % {k: "v" for k in __import__("re").findall(r"(?<!%)%\((\w+)\)s", s)}, False),
         "intdiv": ([[c for c in NUMERIC if not c.startswith("float")], [c for c in NUMERIC if not c.startswith("float")]], lambda a, b: (a // b, a % b), False),
         "truediv": ([NUMERIC, [c for c in NUMERIC if c.startswith("float")]], lambda a, b: a / b, False),
         "truediv_r": ([[c for c in NUMERIC if c.startswith("float")], NUMERIC], lambda a, b: a / b, False),
@@ -355,7 +371,9 @@ class FilterStream(ModelStream):
         return out
 
     def impl(self, case):
-        return run_filter_cell(case["f"], case["l"], case["a"], case["k"])
+        obs = run_filter_cell(case["f"], case["l"], case["a"], case["k"])
+        giant = case["l"] == "int_giant" or "int_giant" in case["a"]
+        return mark_digits(obs, giant, lambda: run_filter_cell(case["f"], _degiant(case["l"]), [_degiant(a) for a in case["a"]], case["k"]))
 
     def line_obs(self, case, obs):
         return ["c02.filter", case["f"], case["l"], case["a"], obs["out"]]
@@ -454,7 +472,8 @@ class SitesStream(ModelStream):
         return out
 
     def impl(self, case):
-        return run_site(case["site"], case["cls"], case["k"], case["mode"], case["async"])
+        obs = run_site(case["site"], case["cls"], case["k"], case["mode"], case["async"])
+        return mark_digits(obs, case["cls"] == "int_giant", lambda: run_site(case["site"], "int_huge", case["k"], case["mode"], case["async"]))
 
     def line_obs(self, case, obs):
         ms = SITES[case["site"]][1]
@@ -560,18 +579,21 @@ class RenderStream(Stream):
         return out
 
     @staticmethod
-    def _data(prog):
+    def _data(prog, degiant=False):
         d = {}
         for k, v in prog["data"].items():
             if isinstance(v, list) and len(v) == 3 and v[0] == "@cls":
-                d[k] = member(v[1], v[2])
+                d[k] = member(_degiant(v[1]) if degiant else v[1], v[2])
             else:
                 d[k] = v
         return d
 
     def impl(self, case):
-        data = self._data(case)
+        giant = any(isinstance(v, list) and len(v) == 3 and v[0] == "@cls" and v[1] == "int_giant" for v in case["data"].values())
+        obs = self._run(case, self._data(case))
+        return mark_digits(obs, giant, lambda: self._run(case, self._data(case, degiant=True)))
 
+    def _run(self, case, data):
         def go():
             env = make_env(case, mode=case.get("mode"))
             t = env.from_string(case["source"])
